@@ -1,13 +1,15 @@
 #!/usr/bin/env python3
 """import confirmed seeded changes from /tmp/seed/<ID>/out into /verif/seeded/<ID>-m<i>/"""
 import glob, json, os, shutil, sys
+SEEDDIR = os.environ.get('SEEDDIR', '/tmp/seed')
+TAG = os.environ.get('SEEDTAG', '')
 VERIF = os.path.dirname(os.path.dirname(os.path.abspath(__file__)))
-for cf in sorted(glob.glob('/tmp/seed/confirm/*.json')):
+for cf in sorted(glob.glob(SEEDDIR + '/confirm/*.json')):
     c = json.load(open(cf))
     pid, m = c['id'], c['mutant']
     ok = c['applies'] and ('92 passed' in c['suite']) and 'FAILED' in c['demo_with_change'] and c['demo_without_change'].startswith('test result: ok')
-    src = '/tmp/seed/%s/out' % pid
-    dst = os.path.join(VERIF, 'seeded', '%s-%s' % (pid, m))
+    src = SEEDDIR + '/%s/out' % pid
+    dst = os.path.join(VERIF, 'seeded', '%s-%s%s' % (pid, TAG, m))
     if not ok:
         print('NOT CONFIRMED', pid, m, c)
         continue
